@@ -220,6 +220,8 @@ func checkC09(c *Ctx) {
 	// ---- C09.empty ----
 	checkEmptyForms(c, c.Rule("C09.empty", "every WHERE clause added from user conditions or model keys is guarded by non-emptiness / non-zero key; BuildCondition yields nothing for empty input", 14))
 
+	checkC09AssocDelete(c)
+
 	// ---- C09.marker ----
 	rm := c.Rule("C09.marker", "PAIR(soft-delete filter added, marker stored) in the soft-delete query modifier", 2)
 	sdq := p.MethodDecl(pkgGorm, "SoftDeleteQueryClause", "ModifyStatement")
